@@ -41,7 +41,10 @@ def shards(tier, seed):
            for _ in range(14)]
     out.append({'kind': 'cross', 'count': 25 if tier == 'quick' else 600, 'budget_s': budget, 'modules': CROSS[:5]})
     out.append({'kind': 'cross', 'count': 25 if tier == 'quick' else 600, 'budget_s': budget, 'modules': CROSS[5:]})
-    return out
+    _out = out
+    if tier == 'thorough':
+        _out.append({'kind': 'suite', 'select': ['tests/cirbo/core', 'tests/cirbo/circuits_db', 'tests/cirbo/minimization', 'tests/cirbo/sat'], 'budget_s': 900})
+    return _out
 
 
 # ------------------------------------------------------------------ monitors
@@ -507,6 +510,11 @@ def run_cross(spec, ctx):
 
 def run_shard(spec, ctx):
     install(ctx)
+    if spec.get('kind') == 'suite':
+        from vt import suite
+        import sys
+        suite.run(sys.modules[__name__], ctx, select=spec.get('select'))
+        return
     if spec.get('kind') == 'cross':
         run_cross(spec, ctx)
         return
